@@ -8,6 +8,7 @@ import GM.Proof.QuoteSimNonePos
 import GM.Proof.ShiftSimXLine
 import GM.Proof.ShiftSimXStats
 import GM.Proof.ShiftSimXKeys
+import GM.Proof.ShiftSimXSafe
 
 namespace GM.Blocks.Xs
 open GM GM.Text GM.Spec GM.Proof.Reader GM.Blocks
@@ -32,10 +33,10 @@ structure PSim (F : Frame) (b : Bytes) (Cov : BP → Prop) : Prop where
   keysO : ∀ bp, Cov bp → ∀ parent s s' a, bpOpen bp parent s = .ok (a, s') → KeysEq s s'
   keysC : ∀ bp, Cov bp → ∀ node s s' a, bpContinue bp node s = .ok (a, s') → KeysEq s s'
   keysCl : ∀ bp, Cov bp → ∀ node s s' a, bpClose bp node s = .ok (a, s') → KeysEq s s'
-  strictO : ∀ bp, Cov bp → ∀ parent s s' x, HasLine b s → bpOpen bp parent s = .ok (x, s') →
-    x.2.hasChildren = true → HasLine b s'
-  strictC : ∀ bp, Cov bp → ∀ node s s' st, HasLine b s → bpContinue bp node s = .ok (st, s') →
-    st.cont = true → st.hasChildren = true → HasLine b s'
+  strictO : ∀ bp, Cov bp → ∀ parent s s' x, HL b s → bpOpen bp parent s = .ok (x, s') →
+    x.2.hasChildren = true → HL b s'
+  strictC : ∀ bp, Cov bp → ∀ node s s' st, HL b s → bpContinue bp node s = .ok (st, s') →
+    st.cont = true → st.hasChildren = true → HL b s'
 
 /-- every open block of run A belongs to a covered parser, and the four context keys are unset -/
 def AI (Cov : BP → Prop) (s : St) : Prop := (∀ x ∈ s.pc.opened, Cov x.bp) ∧ KeysOff s
@@ -66,6 +67,39 @@ theorem AI.eqo {Cov : BP → Prop} {s s' : St} (hc : AI Cov s) (ho : s'.pc.opene
 
 theorem HasLine.of_r {b : Bytes} {s s' : St} (h : HasLine b s) (e : s'.r = s.r) : HasLine b s' := by
   unfold HasLine; rw [e]; exact h
+
+theorem TS.of_r {b : Bytes} {s s' : St} (h : TS b s) (e : s'.r = s.r) : TS b s' := by
+  unfold TS; rw [e]; exact h
+
+theorem HL.of_r {b : Bytes} {s s' : St} (h : HL b s) (e : s'.r = s.r) : HL b s' :=
+  ⟨h.1.of_r e, h.2.of_r e⟩
+
+theorem TSafe.of_eq {b : Bytes} {c c' : RCur} (h : TSafe b c) (ep : c'.p = c.p) (ed : c'.pad = c.pad) :
+    TSafe b c' := by
+  unfold TSafe PreC RCur.view at *; rw [ep, ed]; exact h
+
+/-- two `RI` cursors of readers at the same position have the same `p` and `pad` -/
+theorem ri_pos_eq {b : Bytes} {r r' : Reader} {c c' : RCur} (h : RI b r c) (h' : RI b r' c') (e : r'.pos = r.pos) :
+    c'.p = c.p ∧ c'.pad = c.pad := by
+  have e1 := h.pos
+  have e2 := h'.pos
+  rw [e, e1] at e2
+  simp only [Segment.mk.injEq] at e2
+  obtain ⟨p1, _, p3, _⟩ := e2
+  constructor <;> omega
+
+theorem TS.of_pos {b : Bytes} {s s1 : St} (h : TS b s) (h1 : ∃ c, RI b s1.r c) (hp : s1.r.pos = s.r.pos) : TS b s1 := by
+  obtain ⟨c, hc, ht⟩ := h
+  obtain ⟨c1, hc1⟩ := h1
+  obtain ⟨ep, ed⟩ := ri_pos_eq hc hc1 hp
+  exact ⟨c1, hc1, ht.of_eq ep ed⟩
+
+/-- the cursor of a trigger-safe state, for any `RI` cursor of a reader at the same position -/
+theorem TS.tsafe {b : Bytes} {s : St} (h : TS b s) {r : Reader} {c : RCur} (hc : RI b r c) (hp : r.pos = s.r.pos) :
+    TSafe b c := by
+  obtain ⟨c0, hc0, ht⟩ := h
+  obtain ⟨ep, ed⟩ := ri_pos_eq hc0 hc hp
+  exact ht.of_eq ep ed
 
 theorem P2.withL {α β} {Q : α → β → St → St → Prop} {R : α → St → Prop} {x y} (h : P2 Q x y)
     (hr : ∀ a sA, x = .ok (a, sA) → R a sA) : P2 (fun a b sA sB => Q a b sA sB ∧ R a sA) x y :=
@@ -498,8 +532,8 @@ structure TryPost (F : Frame) (b : Bytes) (Cov : BP → Prop) (sA0 : St) (resIn 
   lb : ∀ l, x.2.2 = some l → Cov l.bp
   sr : ((∃ p, x.1 = .retry p) ∨ x.2.1 = .noBlocksOpened) → SR F b sA' sB'
   line : sA0.r.line ≤ sA'.r.line
-  hasLine : x.2.1 = .noBlocksOpened → HasLine b sA'
-  hasLineR : (∃ p, x.1 = .retry p) → HasLine b sA'
+  hasLine : x.2.1 = .noBlocksOpened → HL b sA'
+  hasLineR : (∃ p, x.1 = .retry p) → HL b sA'
   ne : x.2.1 = .newBlocksOpened → (resIn = .newBlocksOpened → sA0.pc.opened ≠ []) → sA'.pc.opened ≠ []
 
 theorem hasLine_of_pos {sA sA1 : St} (hl : HasLine b sA) (h1 : ∃ c, RI b sA1.r c) (hp : sA1.r.pos = sA.r.pos) :
@@ -514,9 +548,13 @@ theorem hasLine_of_pos {sA sA1 : St} (hl : HasLine b sA) (h1 : ∃ c, RI b sA1.r
     have := congrArg Segment.start e2; simpa using this
   omega
 
+theorem hl_of_pos {sA sA1 : St} (hl : HL b sA) (h1 : ∃ c, RI b sA1.r c) (hp : sA1.r.pos = sA.r.pos) :
+    HL b sA1 :=
+  ⟨hasLine_of_pos hl.1 h1 hp, hl.2.of_pos h1 hp⟩
+
 theorem tryParsers_p2 (hP : PSim F b Cov) (hF : F.OK) (hq : QNL F b) (parent : Nat) (blankLine continuable : Bool) (w : Int) :
     ∀ (bps : List BP) (result : OpenResult) (lastBlock : Option Block) (sA sB : St),
-      (∀ bp ∈ bps, Cov bp) → (∀ l, lastBlock = some l → Cov l.bp) → SR F b sA sB → HasLine b sA → AI Cov sA →
+      (∀ bp ∈ bps, Cov bp) → (∀ l, lastBlock = some l → Cov l.bp) → SR F b sA sB → HL b sA → AI Cov sA →
       P2 (fun x y sA' sB' => y = (shO F x.1, x.2.1, x.2.2.map (shB F)) ∧ TryPost F b Cov sA result x sA' sB')
         (tryParsers parent blankLine continuable w bps result lastBlock sA)
         (tryParsers (F.ι parent) blankLine continuable w bps result (lastBlock.map (shB F)) sB) := by
@@ -543,9 +581,9 @@ theorem tryParsers_p2 (hP : PSim F b Cov) (hF : F.OK) (hq : QNL F b) (parent : N
       intro l hl0
       rw [hx0] at hl0
       exact hc.1 l (List.mem_of_getLast? hl0)
-    refine P2.bind (((hP.op bp hbp parent _ _ h hl).withL
+    refine P2.bind (((hP.op bp hbp parent _ _ h hl.1).withL
       (R := fun a sA' => sA'.pc.opened = sA0.pc.opened ∧ sA0.r.line ≤ sA'.r.line ∧ (a.1 = none → sA'.r.pos = sA0.r.pos) ∧
-        KeysEq sA0 sA' ∧ (a.2.hasChildren = true → HasLine b sA'))
+        KeysEq sA0 sA' ∧ (a.2.hasChildren = true → HL b sA'))
       (fun a sA' e => ⟨bpOpen_opened _ _ _ _ _ e, bpOpen_line _ _ _ _ _ e, bpOpen_none_pos _ _ _ _ _ e,
         hP.keysO bp hbp parent _ _ a e, hP.strictO bp hbp parent _ _ a hl e⟩)))
       (fun x y sA1 sB1 ⟨⟨hy, hlim, hsr, _⟩, ho1, hline1, hpos1, hk1, hstr1⟩ => ?_)
@@ -555,7 +593,7 @@ theorem tryParsers_p2 (hP : PSim F b Cov) (hF : F.OK) (hq : QNL F b) (parent : N
     | none =>
       simp only [Option.map_none]
       have h1 : SR F b sA1 sB1 := hsr (.inr hx1)
-      have hl1 : HasLine b sA1 := hasLine_of_pos hl h1.ri (hpos1 hx1)
+      have hl1 : HL b sA1 := hl_of_pos hl h1.ri (hpos1 hx1)
       refine (ih result x0 sA1 sB1 hbps' hlb0 h1 hl1 hc1).mono (fun u v sA' sB' ⟨hv, hpost⟩ => ⟨hv, ?_⟩)
       exact ⟨hpost.lim, hpost.ai, hpost.lb, hpost.sr, Int.le_trans hline1 hpost.line, hpost.hasLine, hpost.hasLineR,
         fun e he => hpost.ne e (fun e' => ho1 ▸ he e')⟩
@@ -589,7 +627,7 @@ theorem tryParsers_p2 (hP : PSim F b Cov) (hF : F.OK) (hq : QNL F b) (parent : N
     (BlockOffset / BlockIndent need not agree) same answer, afterwards at least the limbo relation; run A's open blocks
     stay covered, its line counter does not decrease, and `newBlocksOpened` means a block is open -/
 def OpenBlocksSim (F : Frame) (b : Bytes) (Cov : BP → Prop) : Prop :=
-  ∀ (parent : Nat) (blank : Bool) (sA sB : St), SRw F b sA sB → AI Cov sA → HasLine b sA →
+  ∀ (parent : Nat) (blank : Bool) (sA sB : St), SRw F b sA sB → AI Cov sA → HL b sA →
     P2 (fun x y sA' sB' => y = x ∧ SRLim F b sA' sB' ∧ AI Cov sA' ∧ sA.r.line ≤ sA'.r.line ∧
         (x = OpenResult.newBlocksOpened → sA'.pc.opened ≠ []))
       (openBlocks parent blank sA) (openBlocks (F.ι parent) blank sB)
